@@ -21,6 +21,7 @@ import hashlib
 import json
 import os
 import threading
+import time
 
 import pipeline as pl
 import checks_codec as cc
@@ -29,7 +30,7 @@ import render
 REPO_FILES = os.path.join(pl.REPO, 'tests', 'files')
 
 TRACE_CFG = ('SPECIFICATION Spec\nCONSTANTS\n  MaxLen = 0\n  Alphabet = {}\n  Mut = {}\n  MaxChanges = 0\n'
-             '  MinChanges = 0\n  Skips = {}\n  OnlyBfs = FALSE\nPOSTCONDITION TraceAccepted\nCHECK_DEADLOCK FALSE\n')
+             '  MinChanges = 0\n  Skips = {}\n  OnlyBfs = FALSE\n  FillerIdx = {}\n  Inject = FALSE\nPOSTCONDITION TraceAccepted\nCHECK_DEADLOCK FALSE\n')
 
 # Probe texts: every keyword the grammar matches as one literal, the other word sequences of X.680,
 # abutting punctuation, and character strings that contain comment markers.
@@ -52,7 +53,7 @@ E ::= CLASS { &id INTEGER UNIQUE, &Type } WITH SYNTAX { &id &Type }
 END
 '''
 PROBE_TINY = '''P DEFINITIONS ::= BEGIN
-A ::= SEQUENCE { a OCTET STRING, b [1] BIT STRING OPTIONAL, c SET OF INTEGER (0..7) }
+A ::= SEQUENCE { a OCTET STRING }
 END
 '''
 PROBE_STRINGS = '''Probe-3 DEFINITIONS ::= BEGIN
@@ -137,8 +138,7 @@ def masks_phase(run, maxlen):
     run.notes['mask_strings'] = nstr
     run.notes['mask_strings_nontrivial'] = nontriv
     shards = pl.drive(run, 'drive_comments.py', cpath, 'mtrace', ['--mode', 'masks'])
-    reports = pl.validate(run, 'Trace_Comments', TRACE_CFG, shards, what='Trace_Comments masks',
-                          extra_env={'OUT_FILE': run.path('unused.out')}, timeout=7200)
+    reports = pl.validate(run, 'Trace_Comments', TRACE_CFG, shards, what='Trace_Comments masks', timeout=7200)
     return reports, shards
 
 
@@ -203,10 +203,10 @@ def probe_texts():
             {'tid': 'probe-marker', 'src': 'probe', 'name': 'probe: -- in a string', 'text': PROBE_MARKER, 'bfs': True}]
 
 
-def layout_cfg(max_changes, min_changes, skips, only_bfs, invariants):
+def layout_cfg(max_changes, min_changes, skips, only_bfs, fillers, inject, invariants):
     return ('SPECIFICATION LaySpec\nCONSTANTS\n  MaxLen = 0\n  Alphabet = {}\n  Mut = {}\n  MaxChanges = %d\n  MinChanges = %d\n'
-            '  %s\n  OnlyBfs = %s\n%sCHECK_DEADLOCK FALSE\n' % (
-                max_changes, min_changes, skips, 'TRUE' if only_bfs else 'FALSE',
+            '  %s\n  OnlyBfs = %s\n  %s\n  Inject = %s\n%sCHECK_DEADLOCK FALSE\n' % (
+                max_changes, min_changes, skips, 'TRUE' if only_bfs else 'FALSE', fillers, 'TRUE' if inject else 'FALSE',
                 ''.join('INVARIANT %s\n' % i for i in invariants)))
 
 
@@ -220,113 +220,104 @@ def read_ndjson(paths):
 
 
 def layout_phase(run, tier, seed):
+    quick = tier == 'quick'
     texts = probe_texts() + generated_modules(run, tier) + fixture_texts(tier)
-    # heavy texts first so that they spread over the shards
-    texts.sort(key=lambda t: -len(t['text']))
+    texts.sort(key=lambda t: -len(t['text']))     # heavy texts first so that they spread over the shards
     tpath = run.path('texts.ndjson')
     pl.write_cases(texts, tpath)
     run.notes['texts'] = {'probe': sum(t['src'] == 'probe' for t in texts), 'generated': sum(t['src'] == 'gen' for t in texts),
-                          'fixtures': sum(t['src'] == 'fixture' for t in texts)}
+                          'fixtures': sum(t['src'] == 'fixture' for t in texts),
+                          'characters': sum(len(t['text']) for t in texts)}
 
     # B1: ignore_comments on whole texts, judged line by line; the model returns the comment-free text
     tshards = pl.drive(run, 'drive_comments.py', tpath, 'ttrace', ['--mode', 'texts'])
-    blank_files = {s: s + '.blank' for s in tshards}
-    treports = []
-    lock = threading.Lock()
-
-    def one(s):
-        r = pl.validate(run, 'Trace_Comments', TRACE_CFG, [s], what='Trace_Comments whole texts',
-                        extra_env={'OUT_FILE': blank_files[s]}, timeout=7200, heap='6g')
-        with lock:
-            treports.extend(r)
-    for bf in blank_files.values():
-        if os.path.exists(bf):
-            os.unlink(bf)
-    from concurrent.futures import ThreadPoolExecutor
-    with ThreadPoolExecutor(max_workers=pl.NPROC) as ex:
-        list(ex.map(one, tshards))
+    for s in tshards:
+        if os.path.exists(s + '.blank'):
+            os.unlink(s + '.blank')
+    treports = pl.validate(run, 'Trace_Comments', TRACE_CFG, tshards, what='Trace_Comments whole texts', timeout=7200, heap='6g')
 
     # tokenize the model's comment-free texts into windows
-    blanks = ','.join(blank_files.values())
     origdir = run.path('orig')
-    big = tier != 'quick'
     tok_shards = pl.drive(run, 'drive_comments.py', tpath, 'tok',
-                          ['--mode', 'tokenize', '--blank', blanks, '--origdir', origdir, '--seed', str(seed),
-                           '--window', '150', '--windows', '8' if big else '3', '--injmax', '400'])
+                          ['--mode', 'tokenize', '--blank', ','.join(s + '.blank' for s in tshards), '--origdir', origdir,
+                           '--seed', str(seed), '--window', '60' if quick else '120', '--windows', '2' if quick else '8'])
     wins = read_ndjson(tok_shards)
     skipped = [w for w in wins if 'skip' in w]
     if skipped:
         raise pl.Machinery('texts without tokens: %s' % skipped[:3])
     by_tid = {t['tid']: t for t in texts}
-    for w in wins:
-        w['bfs2'] = bool(by_tid[w['tid']].get('bfs2')) and w['bfs']
     wpath = run.path('tokens.ndjson')
     pl.write_cases([{k: w[k] for k in ('wid', 'toks', 'fill0', 'bfs', 'inj')} for w in wins], wpath)
     w2path = run.path('tokens2.ndjson')
     pl.write_cases([{'wid': w['wid'], 'toks': w['toks'], 'fill0': w['fill0'], 'bfs': True, 'inj': w['inj']}
-                    for w in wins if w['bfs2']], w2path)
+                    for w in wins if by_tid[w['tid']].get('bfs2')], w2path)
     run.notes['windows'] = len(wins)
     run.notes['tokens_in_windows'] = sum(len(w['toks']) for w in wins)
+    run.notes['texts_not_accepted_as_they_are'] = sorted(set(by_tid[w['tid']]['name'] for w in wins if w['parse0'] != 'ok'))
 
     # A2: schedules
-    cases = []
-    out, res = pl.tlc_generate(run, 'Layout', layout_cfg(1, 1, 'Skips <- AnySkip', True, ['TokenSeqUnchanged', 'LastChangeInert']),
+    scheds = []
+    inv = ['LastChangeInert', 'TokenSeqUnchangedSmall']
+    out, res = pl.tlc_generate(run, 'Layout', layout_cfg(1, 1, 'Skips <- AnySkip', True, 'FillerIdx <- AllFillers', not quick, inv),
                                'sched_bfs1.ndjson', workers=workers(), env={'TOKENS_FILE': wpath},
-                               what='Layout BFS: every single change on the probe texts; invariant TokenSeqUnchanged')
-    cases += pl.dedup_cases(out, 'b1')
-    out, res = pl.tlc_generate(run, 'Layout', layout_cfg(2, 2, 'Skips <- AnySkip', True, ['TokenSeqUnchanged', 'LastChangeInert']),
+                               what='Layout BFS: every single filler change at every boundary of the probe texts')
+    scheds += pl.dedup_cases(out, 'b1')
+    out, res = pl.tlc_generate(run, 'Layout', layout_cfg(2, 2, 'Skips <- AnySkip', True,
+                                                         'FillerIdx = {1, 5, 6, 7, 8}' if quick else 'FillerIdx <- AllFillers', False, inv),
                                'sched_bfs2.ndjson', workers=workers(), env={'TOKENS_FILE': w2path},
-                               what='Layout BFS: every pair of changes on the tiny probe; invariant TokenSeqUnchanged')
-    pairs = pl.dedup_cases(out, 'b2')
-    if tier == 'quick':          # a seeded sample of the pairs
-        pairs = [c for c in pairs if int(hashlib.sha1(('%d%s' % (seed, c['cid'])).encode()).hexdigest(), 16) % 8 == 0]
-    cases += pairs
-    num, depth = (260, 120) if tier == 'quick' else (4000, 160)
-    out, res = pl.tlc_generate(run, 'Layout', layout_cfg(100000, 1, 'Skips = {1, 2, 3, 5, 8, 13}', False, ['LastChangeInert']),
+                               what='Layout BFS: every pair of filler changes on the tiny probe')
+    scheds += pl.dedup_cases(out, 'b2')
+    num, depth = (300, 100) if quick else (6000, 200)
+    out, res = pl.tlc_generate(run, 'Layout', layout_cfg(100000, 1, 'Skips = {1, 2, 3, 5, 8, 13}', False, 'FillerIdx <- AllFillers', True, []),
                                'sched_sim.ndjson', workers=workers(), simulate='num=%d' % num, depth=depth,
                                env={'TOKENS_FILE': wpath}, timeout=3600,
                                what='Layout -simulate num=%d: left-to-right sweeps over all windows' % num)
-    cases += pl.dedup_cases(out, 's')
+    scheds += pl.dedup_cases(out, 's')
     # the tokenizer self-check as a schedule: a single space at every boundary of every window
     for w in wins:
-        cases.append({'cid': 'allsp-' + w['wid'], 'wid': w['wid'], 'ch': [[b, 2] for b in range(1, len(w['toks']))],
-                      'ik': 0, 'ikind': 'none'})
-    # heavy windows first (parse time grows with the text); interleave over the shards
+        scheds.append({'cid': 'allsp-' + w['wid'], 'wid': w['wid'], 'ch': [[b, 2] for b in range(1, len(w['toks']))],
+                       'ik': 0, 'ikind': 'none'})
     size = {w['wid']: len(by_tid[w['tid']]['text']) for w in wins}
-    if tier == 'quick':
-        cases = [c for c in cases if size[c['wid']] <= 36000]
-    else:
-        # a whole-file parse of the largest fixtures takes 5-30 s: keep a few schedules for each
-        kept, per = [], {}
-        for c in cases:
-            big_text = size[c['wid']] > 100000
-            per[c['wid']] = per.get(c['wid'], 0) + 1
-            if not big_text or per[c['wid']] <= 3:
-                kept.append(c)
-        cases = kept
-    cases.sort(key=lambda c: -size[c['wid']])
+    per_win = {}
+    for c in scheds:
+        lst = per_win.setdefault(c['wid'], [])
+        if size[c['wid']] > 100000 and len(lst) >= 3:
+            continue         # a whole-file parse of the largest fixtures takes 5-30 s: a few schedules each
+        lst.append({'id': c['cid'], 'ch': c['ch'], 'ik': c['ik'], 'ikind': c['ikind']})
+    cases = []
+    for wid in per_win:
+        chunk = 25 if size[wid] < 5000 else 6 if size[wid] < 100000 else 1
+        lst = per_win[wid]
+        for i in range(0, len(lst), chunk):
+            cases.append({'cid': 'L%d-%s' % (i // chunk, wid), 'wid': wid, 'scheds': lst[i:i + chunk]})
+    cases.sort(key=lambda c: (-size[c['wid']] * len(c['scheds']), c['cid']))   # heavy first, interleaved over the shards
     cpath = run.path('layout_cases.ndjson')
     pl.write_cases(cases, cpath)
-    run.notes['layout_cases'] = len(cases)
+    run.notes['layout_schedules'] = sum(len(c['scheds']) for c in cases)
     lshards = pl.drive(run, 'drive_comments.py', cpath, 'ltrace',
                        ['--mode', 'layout', '--texts', tpath, '--tokens', ','.join(tok_shards), '--origdir', origdir],
                        timeout=5 * 3600)
     lreports = pl.validate(run, 'Trace_Comments', TRACE_CFG, lshards, what='Trace_Comments layouts and error lines',
-                           extra_env={'OUT_FILE': run.path('unused.out')}, timeout=7200, heap='6g')
+                           timeout=7200, heap='6g')
     # coverage accounting
     for s in lshards:
         with open(s) as f:
             for line in f:
                 r = json.loads(line)
-                run.signatures.add((r['k'], r['wid'], json.dumps(r['ch']), r.get('ik', 0), r.get('ikind', '')))
-                if r['k'] == 'layout' and len(run.samples) < 4 and 0 < len(r['ch']) <= 3 and r['wid'].startswith('fx-'):
-                    run.samples.append({'kind': 'layout', 'window': r['wid'], 'changes [boundary, filler]': r['ch'],
-                                        'tokens_at_first_change': r['toks'][r['ch'][0][0] - 1:r['ch'][0][0] + 1],
-                                        'original': r['o0']['st'], 're-laid-out': r['o1']['st'], 'same_dictionary': r['same']})
-                if r['k'] == 'errline' and len(run.samples) < 6 and r['l1'].get('st') == 'exc':
-                    run.samples.append({'kind': 'errline', 'window': r['wid'], 'injected_at_token': r['ik'], 'how': r['ikind'],
-                                        'reported_in_comment_free_layout': [r['l0'].get('line'), r['l0'].get('col')],
-                                        'reported_in_laid_out_text': [r['l1'].get('line'), r['l1'].get('col')]})
+                if r['k'] == 'errline':
+                    run.signatures.add(('errline', r['wid'], json.dumps(r['ch']), r['ik'], r['ikind']))
+                    if sum(x.get('kind') == 'errline' for x in run.samples) < 2 and r['l1'].get('st') == 'exc':
+                        run.samples.append({'kind': 'errline', 'window': r['wid'], 'injected_at_token': r['ik'], 'how': r['ikind'],
+                                            'reported_in_comment_free_layout': [r['l0'].get('line'), r['l0'].get('col')],
+                                            'reported_in_laid_out_text': [r['l1'].get('line'), r['l1'].get('col')]})
+                    continue
+                for c in r['cases']:
+                    run.signatures.add(('layout', r['wid'], json.dumps(c['ch'])))
+                    if sum(x.get('kind') == 'layout' for x in run.samples) < 2 and len(c['ch']) <= 3 and r['wid'].startswith('fx-'):
+                        b = c['ch'][0][0]
+                        run.samples.append({'kind': 'layout', 'window': r['wid'], 'changes [boundary, filler]': c['ch'],
+                                            'tokens_at_first_change': r['toks'][b - 1:b + 1],
+                                            'original': r['o0']['st'], 're-laid-out': c['o1']['st'], 'same_dictionary': c['same']})
     return treports, tshards, lreports, lshards
 
 
